@@ -486,3 +486,85 @@ Theorem describe_fmt_same_outcome r id :
   | Panic m => describe_fmt r id = Panic m
   end.
 Proof. unfold describe_fmt. destruct (describe r id); reflexivity. Qed.
+
+(** ** the transformer policy, one step (building blocks of the lockstep reading) *)
+Lemma dresolve_named_revisit r nf f c id t :
+  resolve r id = Some t -> is_named t = true -> cache_mem c id = true ->
+  dresolve r nf (S f) c id = (let* nm := tname r nf t in Ok (nm, c)).
+Proof.
+  intros Hr Hn Hm. cbn [dresolve]. rewrite Hr, Hn. unfold cache_mem in Hm.
+  destruct (cache_get c id) as [[|s]|]; try discriminate; reflexivity.
+Qed.
+
+Lemma dresolve_unnamed_replay r nf f c id t s0 :
+  resolve r id = Some t -> is_named t = false -> cache_get c id = Some (CDone s0) ->
+  dresolve r nf (S f) c id = Ok (s0, c).
+Proof. intros Hr Hn Hg. cbn [dresolve]. rewrite Hr, Hn, Hg. reflexivity. Qed.
+
+Lemma dresolve_first_visit r nf f c id t s c' :
+  resolve r id = Some t -> cache_mem c id = false ->
+  dresolve r nf (S f) c id = Ok (s, c') ->
+  exists nm body c1,
+    (if is_named t then tname r nf t else Ok ""%string) = Ok nm /\
+    typedef_desc (dresolve r nf f) (cache_put c id CRec) (t_def t) = Ok (body, c1) /\
+    s = (def_prefix (t_def t) ++ nm ++ body)%string /\
+    c' = cache_put c1 id (CDone s).
+Proof.
+  intros Hr Hm H. cbn [dresolve] in H. rewrite Hr in H. unfold cache_mem in Hm.
+  destruct (cache_get c id); [discriminate|].
+  apply bind_ok in H as ([d c1] & E & H). inversion H; subst s c'. clear H.
+  unfold ty_desc in E. apply bind_ok in E as (nm & Enm & E).
+  apply bind_ok in E as ([body c2] & Eb & E). inversion E; subst d c1.
+  exists nm, body, c2. repeat split; assumption.
+Qed.
+
+(** ** non-vacuity: a cyclic registry (mutual recursion through Vec, Option,
+    Box and a tuple that shares one unnamed id) satisfies the hypotheses *)
+Open Scope string_scope.
+Definition ex_field (n : string) (t : N) (tn : option string) : field := mk_field (Some n) t tn [].
+Definition ex_registry : registry :=
+  [ (0, mk_ty ["m"; "A"] [] (TDComposite [ex_field "b" 1 (Some "Vec<B>")]) []);
+    (1, mk_ty [] [] (TDSequence 2) []);
+    (2, mk_ty ["m"; "B"] []
+          (TDComposite [ex_field "a" 3 (Some "Box<Option<A>>"); ex_field "t" 4 None;
+                        ex_field "k" 5 None]) []);
+    (3, mk_ty ["Option"] [mk_tparam "T" (Some 0)]
+          (TDVariant [mk_variant "None" [] 0 []; mk_variant "Some" [mk_field None 0 None []] 1 []]) []);
+    (4, mk_ty [] [] (TDTuple [1; 1]) []);
+    (5, mk_ty [] [] (TDArray 3 6) []);
+    (6, mk_ty [] [] (TDCompact 7) []);
+    (7, mk_ty [] [] (TDPrimitive PU32) []) ]%N.
+
+Example ex_wf : wf_descb ex_registry = true.
+Proof. vm_compute. reflexivity. Qed.
+
+Example ex_describe :
+  describe ex_registry 0 =
+  Ok "struct A{b: Vec<struct B{a: Box<enum Option<A>{None,Some(A)}>,t: (Vec<B>,Vec<B>),k: [Compact<u32>; 3]}>}".
+Proof. vm_compute. reflexivity. Qed.
+
+(** the id lies on a cycle: A -> Vec<B> -> B -> Option<A> -> A *)
+Example ex_cyclic :
+  In 1%N (def_ids (t_def (snd (nth 0 ex_registry (0%N, mk_ty [] [] (TDTuple []) []))))) /\
+  In 2%N (def_ids (t_def (snd (nth 1 ex_registry (0%N, mk_ty [] [] (TDTuple []) []))))) /\
+  In 3%N (def_ids (t_def (snd (nth 2 ex_registry (0%N, mk_ty [] [] (TDTuple []) []))))) /\
+  In 0%N (def_ids (t_def (snd (nth 3 ex_registry (0%N, mk_ty [] [] (TDTuple []) []))))).
+Proof. cbn. tauto. Qed.
+
+Example ex_total_all_ids :
+  forallb (fun i => is_ok (describe ex_registry (N.of_nat i))) (seq 0 (List.length ex_registry)) = true.
+Proof. vm_compute. reflexivity. Qed.
+
+Example ex_format_ws :
+  match describe ex_registry 0, describe_fmt ex_registry 0 with
+  | Ok s, Ok l => list_eqb N.eqb (strip_ws l) (strip_ws (utf8_decode s))
+  | _, _ => false
+  end = true.
+Proof. vm_compute. reflexivity. Qed.
+
+(** outside the class: an unprotected cycle (a sequence of itself) exhausts the fuel
+    (the implementation overflows its stack), a missing id is an error *)
+Example ex_unprotected_cycle :
+  describe [(0%N, mk_ty [] [] (TDSequence 0) [])] 0 = Err EOutOfFuel
+  /\ wf_descb [(0%N, mk_ty [] [] (TDSequence 0) [])] = false.
+Proof. vm_compute. split; reflexivity. Qed.
